@@ -470,6 +470,19 @@ def interpret(case, ctx):
                 return "failed"
             return "ok"
 
+        def lwt_tags(written, nulled, lwt):
+            """finding-key tags (and blame) for a conditional write that the mapper sends as UPDATE + DELETE, or restricts to the partition"""
+            tags = ()
+            if meta.has_ck and ((written and all(a in meta.static for a in written)) or (nulled and all(a in meta.static for a in nulled))):
+                tags = ("static-only-change",)
+            elif lwt and written and nulled:
+                tags = ("two-phase-update",)
+            if tags and lwt:
+                for a in meta.attrs:
+                    blame[a] = tags[0]
+                blame["*"] = tags[0]
+            return tags
+
         def new_inst(k, c, given):
             """python kwargs + reference instance for Model(**kw)"""
             kw = {"k": k}
@@ -595,14 +608,15 @@ def interpret(case, ctx):
                 tags = ("static-only-instance",)
             elif not writes:
                 tags = ("instance", "nothing-to-write")
-            elif meta.has_ck and not insert_path and ((written and all(a in meta.static for a in written)) or
-                                                      (nulled and all(a in meta.static for a in nulled))):
-                tags = ("static-only-change",)
+            elif not insert_path:
+                tags = None
             for a in meta.attrs:
                 blame[a] = "static-only-instance" if static_only_instance else (
                     "refilled-after-in-place-clear" if a in h.stale_prev else "instance")
             if static_only_instance:
                 blame["*"] = "static-only-instance"
+            if tags is None:
+                tags = lwt_tags(written, nulled, lwt)
             outcome = run(["C35.run", method], (obj.save if method == "save" else obj.update), expect_lwt, tags)
             if outcome != "ok":
                 return outcome
@@ -872,9 +886,7 @@ def interpret(case, ctx):
                     obj.batch(batch)
                 writes = [a for a, v in kw_t.items() if not _null(v)] + [a for a, v in kw_t.items() if _null(v)]
                 outcome = run(["C35.run", "blind"], obj.update, (bool(iff_kw) and not holds) or (if_exists and not sh.exists(k, c)),
-                              ("static-only-change",) if (meta.has_ck and (
-                                  ([a for a, v in kw_t.items() if not _null(v)] and all(a in meta.static for a, v in kw_t.items() if not _null(v))) or
-                                  ([a for a, v in kw_t.items() if _null(v)] and all(a in meta.static for a, v in kw_t.items() if _null(v))))) else ())
+                              lwt_tags([a for a, v in kw_t.items() if not _null(v)], [a for a, v in kw_t.items() if _null(v)], lwt))
                 if outcome != "ok":
                     return "ok" if outcome == "lwt" else outcome
                 for a, v in kw_t.items():
@@ -954,7 +966,13 @@ def interpret(case, ctx):
                 # does the request write anything at all? (empty add/remove/append/prepend/update do not)
                 effective = [e for e in effects if not (e[1] in ("add", "remove", "append", "prepend", "update", "mremove") and not e[2])]
                 expect_lwt = bool(effective) and ((bool(iff_kw) and not holds) or (if_exists and not sh.exists(k, c)))
-                outcome = run(["C35.run", "qupdate"] + ([] if effective else ["nothing-requested"]), lambda: q.update(**kw), expect_lwt)
+                q_tags = ()
+                if lwt and [e for e in effective if not (e[1] == "set" and e[2] is None)] and [e for e in effects if e[1] == "set" and e[2] is None]:
+                    q_tags = ("two-phase-update",)
+                    for a in meta.attrs:
+                        blame[a] = "two-phase-update"
+                    blame["*"] = "two-phase-update"
+                outcome = run(["C35.run", "qupdate"] + ([] if effective else ["nothing-requested"]), lambda: q.update(**kw), expect_lwt, q_tags)
                 if outcome != "ok":
                     return "ok" if outcome == "lwt" else outcome
                 for attr, cop, val in effects:
